@@ -2,6 +2,7 @@
 #![allow(dead_code, unused)]
 pub mod lookaround;
 pub mod perms;
+pub mod rejects;
 pub mod shapes;
 pub mod twins_c10;
 pub mod twins_c11;
